@@ -271,6 +271,17 @@ def run(ctx):
     if ctx.shard == 0:
         run_blocks(ctx)
         run_solver_sites(ctx)
+        if ctx.thorough:
+            # W-ambient: every aliased call the repository's own suite makes, shadow-executed
+            from .c03 import ambient_suite
+            data = ambient_suite(ctx, {'VF_AMBIENT_SHADOW': '1'}, 'c10')
+            if data is not None:
+                ctx.ev('solver-call-sites', int(data['stats'].get('shadowed', 0)))
+                ctx.note('ambient', {'aliased_calls': data['stats'].get('aliased', 0), 'shadowed': data['stats'].get('shadowed', 0),
+                                     'nondeterministic_skipped': data['stats'].get('shadow-nondeterministic', 0)})
+                for v in data['violations']:
+                    if v['kind'] == 'aliased!=oop':
+                        ctx.violation('ambient-call-site:' + v['component'], v['config'], 'aliased!=oop', count=v['count'])
     else:
         ctx.monitors.pop('building-blocks', None)
     cov.disarm()
